@@ -25,7 +25,7 @@ struct Res *g_self; Id g_bound_at_lock; int g_tst_at_lock; _Bool g_popped_watche
 size_t g_j, g_a, g_b;                                              /* arbitrary queue positions */
 _Bool g_notify_pending;                                            /* the bound moved and nobody was notified yet */
 _Bool g_fast_path; OpType g_op_at_lock; size_t g_qlen_at_lock; size_t g_hW_at_lock;
-size_t g_admitted_now; _Bool g_busy_at_lock;
+size_t g_waiters_at_release; _Bool g_busy_at_lock;
 
 /* ---- std::deque model ---- */
 static void Deq__ctor_default(struct Deq *q) { q->head = 0; q->len = 0; }
@@ -136,6 +136,8 @@ static void Mutex__unlock(struct Mutex *m) {
       if (g_me) { __CPROVER_assert(g_tst == T_ADM, "C03 the owner of a ticket returns only when it is admitted"); g_tst = T_NONE; }
       else { __CPROVER_assert(g_asleep >= 1, "C01 an admitted waiter is accounted for"); g_asleep--; }
     }
+    /* C03 no barging: a request that did not wait found the queue empty, i.e. (by the invariant) no un-admitted ticket */
+    __CPROVER_assert(g_waited || g_qlen_at_lock == 0, "C03 a request is granted without queueing only if nobody is waiting");
     if (g_myType == OP_READ) g_hR++; else g_hW++;
   } else {
     /* tickets in [old bound, new bound) have just been admitted */
@@ -154,16 +156,18 @@ static void Mutex__unlock(struct Mutex *m) {
        "C02 once all locks are released the resource is back in its idle state");
   }
   ASSERT_INV(s, 0);
+  /* threads that may be blocked on the condition variable right now: un-admitted tickets and admitted sleepers */
+  g_waiters_at_release = (size_t)(s->m_idCounter - s->m_upperUnlockBound) + g_asleep + WADM;
   __CPROVER_assert(g_tst == T_NONE ==> (g_tst_at_lock == T_NONE || (g_mode == 0 && g_me)), "C03 only its owner retires a ticket");
 }
 static void ULock__ctor__Mutex_ref(struct ULock *l, struct Mutex *m) { l->m = m; l->owns = 1; Mutex__lock(m); }
 static void ULock__dtor(struct ULock *l) { if (l->owns) Mutex__unlock(l->m); }
 
-static void CondVar__wait(struct CondVar *cv, struct ULock *l, struct closure_Res__lock_1 *pred) {
+static void CondVar__wait(struct CondVar *cv, struct ULock *l, struct closure_Res__lock_1 pred) {
   struct Res *s = g_self;
-  Id id = pred->cap_id;
+  Id id = pred.cap_id;
   __CPROVER_assert(l->owns, "wait is called with the mutex held");
-  if (closure_Res__lock_1__call(pred)) {      /* while (!pred()) wait(lock): predicate already true */
+  if (closure_Res__lock_1__call(&pred)) {      /* while (!pred()) wait(lock): predicate already true */
     __CPROVER_assert(0, "C03 a request that queued itself cannot already be admitted in the same critical section");
     return;
   }
@@ -176,7 +180,7 @@ static void CondVar__wait(struct CondVar *cv, struct ULock *l, struct closure_Re
   /* mutex released; other threads run arbitrary atomic sections; mutex re-acquired with the predicate true */
   havoc_shared(s);
   __CPROVER_assume(INV_INSTANCES(s));
-  __CPROVER_assume(closure_Res__lock_1__call(pred));
+  __CPROVER_assume(closure_Res__lock_1__call(&pred));
   if (g_me) {
     /* owner knowledge: nobody else retires or re-issues my ticket */
     __CPROVER_assume(g_tst != T_NONE && g_tid == id && g_ttype == g_myType);
@@ -190,4 +194,6 @@ static void CondVar__wait(struct CondVar *cv, struct ULock *l, struct closure_Re
   g_waited = 1; g_myId = id;
 }
 static void CondVar__notify_all(struct CondVar *cv) { g_notify_pending = 0; }
-static void CondVar__notify_one(struct CondVar *cv) { if (g_admitted_now <= 1) g_notify_pending = 0; }
+/* all waiters share one condition variable and are told apart only by their predicate: notify_one reaches the admitted
+ * thread for certain only if at most one thread can be blocked on it */
+static void CondVar__notify_one(struct CondVar *cv) { if (g_waiters_at_release <= 1) g_notify_pending = 0; }
